@@ -64,7 +64,7 @@ func verifC19CLI(c *drv.Ctx) {
 		if k.rate != "" {
 			sc.Args = append(sc.Args, "--rate", k.rate)
 		}
-		sc.Horizon = 5000000
+		sc.Horizon = 400000 // three to five passes need a few thousand steps; passes that follow each other without the clock moving end here as a busy loop
 		_, base, _ := zzref.RefTarget(strings.SplitN(k.subnet, "/", 2)[0] + "/32")
 		_ = base
 		b, _ := zzref.RefIPv4(strings.SplitN(k.subnet, "/", 2)[0])
